@@ -132,6 +132,7 @@ func readFindings() []finding {
 }
 
 type Report struct {
+	DepFuncs    []string // functions included because a function of the property relies on their verified contract
 	Anchors     map[string]interface{}
 	Prop        string
 	Tier        string
@@ -355,6 +356,7 @@ func (r *Report) writeEvidence(path string) error {
 			"checker_cmd":              fmt.Sprintf("/verif/bin/nsqvc check -prop %s -tier %s", r.Prop, r.Tier),
 			"trusted_base":             append(base, r.Trusted...),
 			"functions_under_contract": r.Funcs,
+			"functions_included_by_dependency": r.DepFuncs,
 			"by_solver":                r.BySolver,
 			"solver_time_s":            float64(r.SolverMS) / 1000,
 			"bounded_obligations":      r.Bounded,
